@@ -142,6 +142,10 @@ func (q *UdpTaskQueue) safeTimerReset(timer *time.Timer) {
 
 func (q *UdpTaskQueue) executeTask(task UdpTask, timer *time.Timer) {
 	task()
+	// Drop the reference EmitTask took for this task. A queued task keeps the
+	// queue referenced until it has run, so the idle GC's claiming CAS
+	// (refs 0 -> sentinel) can only succeed on a queue that is really empty.
+	q.refs.Add(-1)
 	q.safeTimerReset(timer)
 }
 
@@ -232,7 +236,11 @@ func (p *UdpTaskPool) EmitTask(key UdpFlowKey, task UdpTask) {
 	verifYield("utp6")
 	q.enqueue(task)
 	verifYield("utp5")
-	q.refs.Add(-1)
+	// The reference is NOT released here: releasing it before the task has run
+	// lets a complete acquire/enqueue/release slip between the convoy's idle
+	// emptiness check and its claiming CAS (refs is 0 again), after which the
+	// queue is deleted and its channel recycled with the task still inside.
+	// executeTask releases it once the task has run.
 }
 
 func (p *UdpTaskPool) acquireQueue(key UdpFlowKey) *UdpTaskQueue {
